@@ -514,7 +514,15 @@ PROPS = {
               "later run of the same character that can close under the multiple-of-3 condition (emph_sound_rules_1_8), the HTML is tag-balanced "
               "(emph_html_balanced) and its text content is the tree's (emph_html_text); the algorithm is structurally recursive (no fuel); the appendix's "
               "openers_bottom table, keyed by (character, can-open, length mod 3), never changes the reference's result "
-              "(emph_openers_bottom_is_optimisation), while keyed without the length it does (witness *a**b**c*y: the seeded change C02-7).",
+              "(emph_openers_bottom_is_optimisation), while keyed without the length it does (witness *a**b**c*y: the seeded change C02-7). Inline "
+              "links and images (6.3/6.4: link text, both destination forms, the three title forms, separating white space, nesting, raw-HTML "
+              "precedence) and reference links against one definition are decided by a third spec-side reference, GM.Spec.CMLink (bracket stack of the "
+              "appendix; reproduces all 64 spec.json examples inside its alphabet and 30 of 30 one-definition reference-link examples), compared with the "
+              "implementation on every short inside of [a](...) and every short bracket shape (component cmlink); kernel-checked about it: an accepted "
+              "destination satisfies the grammar of its form incl. balanced parentheses (link_dest_form_sound; the whole parenthesised part: "
+              "C02Link.inline_link_grammar), links are never nested in links at any depth (links_not_nested), the HTML is tag-balanced "
+              "(link_html_balanced). Five deviations of goldmark's link scanner are reported under their own clauses (KNOWN_FINDINGS, candidate patches "
+              "notes/candidate_fix_L1..L5.diff).",
         note="Trusted: Lean kernel (+ propext, Classical.choice, Quot.sound); the spec-side model GM.Spec.CommonMark as a reading of the "
              "specification (its wellFormed side conditions were triaged against spec.json's examples; see notes/status_C02.md); the Lean "
              "compiler/runtime for the generator; the harness. Not proved: any statement about the parsers. Known deviation reported under its "
@@ -524,7 +532,7 @@ PROPS = {
              "a rejected title: notes/status_convert.md R1-R5), repaired in /repo 0539a73; the inputs stay in its fixed list.",
         technique="Lean 4 spec-side generator (trees x choices -> Markdown, prescribed HTML) + differential run against the real library; "
                   "Lean theorems for the escape-spelling law over the writer model; spec examples x licensed rewrites",
-        components=["cmspec", "cmemph", "inlines", "linerec", "blocks", "convert", "cmfrag"],
+        components=["cmspec", "cmemph", "cmlink", "inlines", "linerec", "blocks", "convert", "cmfrag"],
         explanation="Component cmspec: (1) the driver enumerates the exhaustive small scope (families of trees of depth <= 2 x every value of "
                     "their choice axes: escapes of all 95 printable characters, ATX/Setext, fences, thematic breaks, list markers/offsets/"
                     "tightness, ordered starts, link styles/label variants/titles, emphasis delimiters and contexts, code spans, adjacent "
@@ -541,8 +549,19 @@ PROPS = {
                     "length 8..40, all spec.json examples inside the reference's alphabet (the reference must reproduce spec.json too); goldmark's bytes "
                     "compared with the prescribed bytes, clause emphasis-differs. Known deviation under its own clause: a backslash escape at the start of "
                     "the line after a `backslash, two spaces, line ending` hard break (escape-after-backslash-spaces-break-differs, KNOWN_FINDINGS). "
-                    "Theorems: emph_preserves_text, emph_sound_rules_1_8, emph_html_balanced, emph_html_text, emph_openers_bottom_is_optimisation.",
+                    "Theorems: emph_preserves_text, emph_sound_rules_1_8, emph_html_balanced, emph_html_text, emph_openers_bottom_is_optimisation. "
+                    "Component cmlink (spec-side inline-link reference GM.Spec.CMLink, driver ops `cmspec link|linkr|linkrx|linkattr`): `[a](X)` for every X of "
+                    "length <= 5 (6 thorough) and `[a](X` for <= 4 (5) over {a, space, <, >, (, ), \", backslash, newline, 0x01}; `[a](b T)`, `[a](<b>T)`, "
+                    "`![a](bT)` for every T of length <= 5/4 (6/5) over {a, space, newline, \", ', (, ), backslash}; every string of length <= 6 (7) over "
+                    "{a, [, ], (, ), !, backslash} and {a, [, ], (, ), <, >, space}; with the definition `[a]: /u` appended every string of length <= 6 (7) over "
+                    "{a, b, [, ], space, backslash, !} and {a, A, [, ], (, ), newline}; link reference definitions `[a]: X` + `[a]` for every X of length <= 5 (6) over "
+                    "{a, space, <, >, (, ), \", backslash, 0x01} (the destination scanner is shared); 30k+10k (400k+133k) random strings; the spec.json examples in scope (64, "
+                    "and 30 with one definition). Clause inline-link-differs; goldmark's confirmed deviations are attributed by asking the reference to "
+                    "reproduce them (switches `Dev`): link-destination-pointy-differs, link-destination-unbalanced-paren-differs, "
+                    "link-title-without-separator-differs, link-destination-control-char-differs, link-label-blank-differs, several-link-deviations-combined. "
+                    "Theorems: link_dest_form_sound, links_not_nested, link_html_balanced.",
         assumptions=["the Lean model GM.Spec.CommonMark is a correct reading of CommonMark 0.31.2 on wellFormed trees (it is the specification side of the comparison)",
+                     "GM.Spec.CMLink is a correct reading of CommonMark 0.31.2 sections 6.3, 6.4 (and 6.6 open/closing tags) on documents inside linkOnly (validated on every run against the spec.json examples in scope)",
                      "GM.Spec.CMEmph is a correct reading of CommonMark 0.31.2 sections 6.1, 6.2, 2.4, 6.7/6.8 on documents inside emphOnly (validated on every run against the spec.json examples in scope)",
                      "GM.Model.Writer models defaultWriter.Write (tied by component render under C10)"],
     ),
@@ -604,11 +623,11 @@ PROPS = {
 NOT_CLAIMED = {}
 
 # ---- C08 texts after package quotesim (notes/status_quotesim.md) ----
-PROPS["C08"]['claim'] = "Partial. PROVED (kernel-checked, Lean 4): (1) line level, for EVERY tab-free line and start column, over the model of goldmark's line recognisers tied by component linerec: marker consumption of blockquoteParser.process and column invariance of every offset-taking recogniser. (2) block level, over the executable model GM.Model.Blocks of parseBlocks/openBlocks/closeBlocks and the ten default block parsers (tied to the real parser by component blocks), by a forward SIMULATION between the block phase on D and on '> '-prefixed D (GM/Proof/QuoteSim*.lean): from related states (same open-block stack with one Blockquote at the bottom, node stores equal up to the extra node and segments moved by the markers in front of their line, reader shifted, same context keys) the one-line step of Open of all ten parsers, Continue of all ten (fenced code / list item under explicit side conditions), Close of nine (not listParser.Close) and of the driver (closeBlocks, openBlocks with its goto-retry loop, RequireParagraph path and contract monitor, the per-line loop) ends in related states; on every line the Blockquote consumes exactly '> '. WHOLE RUNS, for every D without tab/CR that ends with a line feed and has no byte that can start a list item (- * + digits): UNCONDITIONALLY (quote_prefix_run) the block phase on D and on prefixed D both end normally (no panic: GM.Props.Blocks.no_panic; B: no panic, monitor silent, fuel suffices), the final node stores are related, the original run reads every line (nonblank_line_opens_block: a non-blank line always opens a block), its Document has no lines and is nobody's child, and it builds no List/ListItem node; and (quote_prefix_simulation_class) under ONE remaining decidable assumption about the run on D alone - no line/info/closure segment it stores is empty (SegsNE) - the tree of prefixed D is Document[Blockquote[tree of D, segments moved]] (GM.Props.Blocks.QuotePrefixSimulation). SEARCHED, not proved: that remaining fact about the original run (driver oracle `blocks quotesimhyp`, every class source of component blocks), documents with list items or without final line feed (driver oracle `blocks quotesim` on every tab/CR-free source), and C08 on HTML through the inline phase and renderer (metamorphic component quote: Convert(prefix^n D) = wrap^n(Convert D))."
-PROPS["C08"]['note'] = "Trusted: Lean kernel (+ propext, Classical.choice, Quot.sound); the models GM.Model.LineRec / GM.Model.Blocks and their ties (components linerec, blocks: exhaustive small scopes + corpora, 0 disagreements); the hook file; the harness. NOT proved: 'no stored segment of the original run is empty' (SegsNE: an empty segment standing exactly behind the line feed of its line would be moved by the markers of the wrong line; needs 'paragraph lines are never blank' through paragraphParser.Close's trimming together with the parser/kind consistency of the open blocks - the C05(c)-type invariant of the block phase; evaluated per source); listParser.Close under the relation (it reads HasBlankPreviousLines, which differs inside a quote for the quote's direct children, parser.go:1099, and must be shown equal for list items through the blank-line statistics); a last line without line feed (Advance(-1) in fenced code / list item Continue); inline phase and renderer. Discharged since the first version: no-panic of the original run (GM.Props.Blocks.no_panic), 'every non-blank top-level line opens a block' (was ReadToEnd), Document without lines / nobody's child, no List/ListItem node (store invariant UStore carried through the simulation's driver walk, GM/Proof/QuoteSimInv*.lean)."
+PROPS["C08"]['claim'] = "Partial. PROVED (kernel-checked, Lean 4): (1) line level, for EVERY tab-free line and start column, over the model of goldmark's line recognisers tied by component linerec: marker consumption of blockquoteParser.process and column invariance of every offset-taking recogniser. (2) block level, over the executable model GM.Model.Blocks of parseBlocks/openBlocks/closeBlocks and the ten default block parsers (tied to the real parser by component blocks), by a forward SIMULATION between the block phase on D and on '> '-prefixed D (GM/Proof/QuoteSim*.lean): from related states (same open-block stack with one Blockquote at the bottom, node stores equal up to the extra node and segments moved by the markers in front of their line, reader shifted, same context keys) the one-line step of Open of all ten parsers, Continue of all ten (code / HTML block when there is a current line, fenced code / list item under explicit side conditions), Close of all ten (paragraph / setext on a node that is not raw; listParser.Close given that the HasBlankPreviousLines flags it reads agree in the two runs - FlagsOK, not proved for reachable states) and of the driver (closeBlocks, openBlocks with its goto-retry loop, RequireParagraph path and contract monitor, the per-line loop) ends in related states; on every line the Blockquote consumes exactly '> '. WHOLE RUNS, UNCONDITIONALLY (quote_prefix_simulation_nolist / _noitems, _nofinalnl, _class, quote_prefix_run): for every D without tab/CR that does not end with a space (the last line may or may not end with a line feed) and in which NO POSITION STARTS A LIST ITEM (nowhere a bullet - * + or a number of at most nine digits with . or ) that is followed by a space, a tab, a line end or the end of the source; digits, hyphens, emphasis stars are allowed; the list parsers are tried and decline in both runs), both block phases end normally and the tree of prefixed D is Document[Blockquote[tree of D, segments moved]] (GM.Props.Blocks.QuotePrefixSimulation). Nothing about the original run is assumed any more: it ends normally (GM.Props.Blocks.no_panic), reads every line (nonblank_line_opens_block), its open blocks have the kind their parser builds, its Document has no lines and is nobody's child, it builds no List/ListItem node (the list parsers decline: listOpen_declines, listItemOpen_declines) and stores no empty segment (original_run_well_shaped; non-raw blocks by GM.Props.Wf0.inline_segments_nonempty). SEARCHED, not proved: documents with list items, a last line without line feed that ends with a space (driver oracle `blocks quotesim` on every tab/CR-free source), and C08 on HTML through the inline phase and renderer (metamorphic component quote: Convert(prefix^n D) = wrap^n(Convert D))."
+PROPS["C08"]['note'] = "Trusted: Lean kernel (+ propext, Classical.choice, Quot.sound); the models GM.Model.LineRec / GM.Model.Blocks and their ties (components linerec, blocks: exhaustive small scopes + corpora, 0 disagreements); the hook file; the harness. NOT proved: that the HasBlankPreviousLines flags read by listParser.Close agree in the two runs (they differ for the quote's direct children, parser.go:1099, and must be shown equal for list items through the blank-line statistics; listClose_sim' takes it as side condition FlagsOK) and 'the parent list just answered Continue' for listItemParser.Continue; a last line without line feed that ends with a space (Advance(-1) in fencedCodeBlockParser.Continue); inline phase and renderer. The driver oracle `blocks quotesimhyp` (the former assumptions of the whole-run theorem, evaluated on every class source) has nothing left to assume for the class: all of it is proved (GM.Props.C08.original_run_well_shaped, quote_prefix_run); it is KEPT as a regression oracle of the model (a failure would mean the executable model and the proved statements have diverged)."
 PROPS["C08"]['technique'] = 'Lean 4: forward simulation between two runs of the executable block-phase model (relational Hoare calculus S2, per-parser and driver lemmas, induction over lines) + line-level theorems; correspondence ties; Lean-defined oracles; metamorphic search'
-PROPS["C08"]['explanation'] = "Proved (GM.Props.C08, 20 theorems): line level as before (quote_consumes_marker/_nospace, quote_declines, offset_invariant, offset_invariant_quote, offset_invariant_list, indent_pos_tabfree); block level: quote_first_line, quote_marker_every_line (the driver / the Blockquote's Continue consumes exactly '> ' on every line), quote_step_open / quote_step_continue / quote_step_close (one line step of every block parser from related states), quote_driver_close_blocks / quote_driver_open_blocks / quote_driver_line (the driver preserves the relation), nonblank_line_opens_block (with nothing open, openBlocks on a rest of line that is not blank answers newBlocksOpened), quote_prefix_run (class: both runs end normally, stores related, Document without lines and nobody's child, no list node - no assumption), quote_prefix_simulation_class / _partial / _checked (the tree statement for the class under the single assumption SegsNE). Full statement kept unproved as def QuotePrefixSimulationAll. Searched: blocks quotesim (tree statement on every tab/CR-free non-blank source of component blocks, 0 failures), blocks quotesimhyp (the former hypotheses of the whole-run theorem, a superset of SegsNE, on every class source, 0 failures; a failure is reported as 'hypothesis of the theorems not met'), component quote on HTML."
-PROPS["C08"]['assumptions'] = ["documents contain no tab and no carriage return (the property's proviso)", 'whole-run theorems only: D ends with a line feed and contains none of - * + 0-9', "tree statement only (quote_prefix_simulation_class): no line / info / closure segment stored by the model's run on D is empty (SegsNE; evaluated per source by the driver, not proved)", 'inline phase and renderer do not distinguish the two trees beyond the wrapping (searched by component quote)']
+PROPS["C08"]['explanation'] = "Proved (GM.Props.C08, 25 theorems): line level as before (quote_consumes_marker/_nospace, quote_declines, offset_invariant, offset_invariant_quote, offset_invariant_list, indent_pos_tabfree); block level: quote_first_line, quote_marker_every_line, quote_step_open / quote_step_continue / quote_step_close (one line step of every block parser from related states), quote_driver_close_blocks / quote_driver_open_blocks / quote_driver_line (the driver preserves the relation), nonblank_line_opens_block, quote_prefix_run / quote_prefix_run_nofinalnl (both runs end normally, stores related, original store well shaped - no assumption), quote_prefix_simulation_class / _partial (sources ending with a line feed) quote_prefix_simulation_nofinalnl (last byte not a space), quote_prefix_simulation_noitems / _nolist (no position starts a list item: class C08ClassL, predicate NoItem) - the tree statement, UNCONDITIONAL -, original_run_well_shaped, quote_prefix_simulation_checked. Unary invariants of the original run carried by the simulation's driver walk (GM/Proof/QuoteSimInv*.lean): Document without lines, no List/ListItem, node 0 nobody's child (UStore), parser/kind consistency of the open blocks (PKL), kinds never change (KGn), the node Open returns is the fresh node of kind bp.kind (OPK); raw blocks / info / closure segments non-empty in the relation (NodeRel.rawNE/infoNE/closNE); non-raw blocks from package wf0. Full statement kept unproved as def QuotePrefixSimulationAll. Searched: blocks quotesim (tree statement on every tab/CR-free non-blank source of component blocks, 0 failures), blocks quotesimhyp (regression oracle), component quote on HTML."
+PROPS["C08"]['assumptions'] = ["documents contain no tab and no carriage return (the property's proviso)", 'whole-run theorems only: no position of D starts a list item (no bullet - * + and no number with . or ) followed by white space or the end; decidable predicate GM.Blocks.NoItem) and D does not end with a space (it may or may not end with a line feed)', 'inline phase and renderer do not distinguish the two trees beyond the wrapping (searched by component quote)']
 
 # ---- C09 texts after packages indep / convert (notes/status_indep.md, notes/status_convert.md) ----
 PROPS["C09"]["claim"] += (" First half on the MODEL: stated on the block-phase model as GM.Props.C09.IndependentBlocks (not proved in general) and "
